@@ -377,7 +377,9 @@ func c20LogConfig(c *Ctx, ix *PkgIndex, m otlpMod) {
 			g := ix.FG(f)
 			fVal := lookupField(ix.Pkg, "setting", "Value")
 			fSet := lookupField(ix.Pkg, "setting", "Set")
-			st := g.Match(func(n ast.Node) bool { return assignRHS(n, func(e ast.Expr) bool { return isField(info, e, fVal) }) != nil })
+			st := g.Match(func(n ast.Node) bool {
+				return assignRHS(n, func(e ast.Expr) bool { return isField(info, e, fVal) }) != nil
+			})
 			good := len(st) == 1
 			if good {
 				good, _ = g.DominatedByEdges(st[0], func(e *GEdge) bool {
